@@ -876,9 +876,21 @@ def run_case(case, hooks=False):
         obs = Obs(host)
         logger, metric, span, deco = make_plugins(obs)
         r = rig.Rig(plugins=[logger, metric, span, deco], logger=False)
-        r.close()       # real clock: the frame collector measures its own duration against the trigger time stamp
+        # one scripted clock for the trigger time stamp AND for the frame collector's time budget (it skips the
+        # variables of a frame when more than MAX_TP_PROCESS_TIME = 100 ms of wall clock have passed since the
+        # trigger): no verdict may depend on the wall clock
+        import deep.processor.frame_collector as _fc
+        fc_orig = _fc.time_ns
+        _fc.time_ns = r._now
         r.handler._push_service = Push(obs)
         holder['r'] = r
+        # hermetic cases: should the thread-local store ever be process-wide again (a class-level dict keyed by
+        # thread ident, D3), what earlier cases left in it must not decide this case's verdict — inheritance is
+        # exercised inside one case (threads started one after the other)
+        from deep.thread_local import ThreadLocal
+        shared = getattr(ThreadLocal, '_ThreadLocal__store', None)
+        if isinstance(shared, dict):
+            shared.clear()
         try:
             triggers = build_config(case['tps'])
         except BaseException as e:  # noqa: B902
@@ -901,6 +913,10 @@ def run_case(case, hooks=False):
     finally:
         if r is not None:
             r.close()
+            try:
+                _fc.time_ns = fc_orig
+            except NameError:
+                pass
         host.close()
 
 
